@@ -292,7 +292,7 @@ def relations(fam, inv, d, hidden=None):
     out = []
     reported = d
     d = dict(hidden or {}, **d)
-    sens = {s.id_: s for s in inv.sensors()}
+    sens = {s.id_: s for s in world.listed(inv)}
     for sid, s in sens.items():
         if sid.endswith('_label') and hasattr(s, '_labels') and tname(s) in ('Enum', 'EnumH', 'EnumL', 'Enum2', 'EnumCalculated'):
             code = sid[:-len('_label')]
